@@ -415,7 +415,24 @@ func (r *Runner) DoRun(cs Case) (o Obs, ro RunObs, c *network.OneConnection) {
 	ip := [4]byte{46, byte(r.nrun >> 16), byte(r.nrun >> 8), byte(r.nrun)}
 	a, b := net.Pipe()
 	node := &nodeEnd{Conn: a}
-	if r.pool != nil {
+	// configuration changes at the head of the history: the operator set them BEFORE this peer connected - the
+	// connection object is then made by the real NewConnection under that configuration (never a recycled one)
+	lead := 0
+	if cs.reconfigures() {
+		restoreCfg := saveCfg()
+		defer func() {
+			if !o.Hang { // (a stuck Run may hold the config lock)
+				r.e.quiet()
+				restoreCfg()
+				r.e.loud()
+			}
+		}()
+		for lead < len(cs.Seq) && cs.Seq[lead].Cmd == "@cfg" {
+			silently(func() { applyCfg(cs.Seq[lead].Pl) })
+			lead++
+		}
+	}
+	if r.pool != nil && lead == 0 {
 		// the object of the previous run-stream connection, re-initialised (see network.VerifRecycle: saves
 		// allocating and clearing the 16 MB send ring per connection); only an object whose Run has
 		// returned through its tear-down with no lock held is ever reused
@@ -473,23 +490,6 @@ func (r *Runner) DoRun(cs Case) (o Obs, ro RunObs, c *network.OneConnection) {
 	}
 	captured := r.e.captureStart()
 	t0 := time.Now()
-	// configuration changes at the head of the history: the operator set them before this peer connected
-	lead := 0
-	if cs.reconfigures() {
-		restoreCfg := saveCfg()
-		defer func() {
-			if !o.Hang { // (a stuck Run may hold the config lock)
-				r.e.quiet()
-				restoreCfg()
-				r.e.loud()
-			}
-		}()
-		for lead < len(cs.Seq) && cs.Seq[lead].Cmd == "@cfg" {
-			applyCfg(cs.Seq[lead].Pl)
-			lead++
-		}
-	}
-
 	s := &session{c: c, node: node, p: newPeer(b), runDone: make(chan struct{})}
 	go func() {
 		defer func() {
